@@ -1,5 +1,543 @@
 package main
 
+import (
+	"bytes"
+	"context"
+	"encoding/json"
+	"fmt"
+	"go/types"
+	"os"
+	"os/exec"
+	"path/filepath"
+	"sort"
+	"strconv"
+	"strings"
+	"time"
+
+	"golang.org/x/tools/go/ssa"
+)
+
+// ---------------------------------------------------------------------------
+// S-expressions (solver output)
+// ---------------------------------------------------------------------------
+
+type sexp struct {
+	atom string
+	list []*sexp
+	isL  bool
+}
+
+func (s *sexp) String() string {
+	if !s.isL {
+		return s.atom
+	}
+	var parts []string
+	for _, x := range s.list {
+		parts = append(parts, x.String())
+	}
+	return "(" + strings.Join(parts, " ") + ")"
+}
+
+func parseSexps(src string) []*sexp {
+	var out []*sexp
+	i := 0
+	var parse func() *sexp
+	skip := func() {
+		for i < len(src) && (src[i] == ' ' || src[i] == '\n' || src[i] == '\t' || src[i] == '\r') {
+			i++
+		}
+	}
+	parse = func() *sexp {
+		skip()
+		if i >= len(src) {
+			return nil
+		}
+		switch src[i] {
+		case '(':
+			i++
+			s := &sexp{isL: true}
+			for {
+				skip()
+				if i >= len(src) {
+					return s
+				}
+				if src[i] == ')' {
+					i++
+					return s
+				}
+				c := parse()
+				if c == nil {
+					return s
+				}
+				s.list = append(s.list, c)
+			}
+		case '"':
+			j := i + 1
+			for j < len(src) {
+				if src[j] == '"' {
+					if j+1 < len(src) && src[j+1] == '"' {
+						j += 2
+						continue
+					}
+					break
+				}
+				j++
+			}
+			s := &sexp{atom: src[i : j+1]}
+			i = j + 1
+			return s
+		case '|':
+			j := i + 1
+			for j < len(src) && src[j] != '|' {
+				j++
+			}
+			s := &sexp{atom: src[i : j+1]}
+			i = j + 1
+			return s
+		case ')':
+			i++
+			return nil
+		}
+		j := i
+		for j < len(src) && !strings.ContainsRune(" \n\t\r()", rune(src[j])) {
+			j++
+		}
+		s := &sexp{atom: src[i:j]}
+		i = j
+		return s
+	}
+	for i < len(src) {
+		s := parse()
+		if s != nil {
+			out = append(out, s)
+		}
+	}
+	return out
+}
+
+// smtStringValue decodes an SMT-LIB string literal to bytes (code points must be < 256).
+func smtStringValue(lit string) (string, bool) {
+	if len(lit) < 2 || lit[0] != '"' {
+		return "", false
+	}
+	s := lit[1 : len(lit)-1]
+	s = strings.ReplaceAll(s, "\"\"", "\"")
+	var b []byte
+	for i := 0; i < len(s); {
+		if s[i] == '\\' && i+1 < len(s) && s[i+1] == 'u' {
+			// \u{X..} or \uXXXX
+			if i+2 < len(s) && s[i+2] == '{' {
+				j := strings.IndexByte(s[i:], '}')
+				if j > 0 {
+					v, err := strconv.ParseInt(s[i+3:i+j], 16, 32)
+					if err == nil {
+						if v > 255 {
+							return "", false
+						}
+						b = append(b, byte(v))
+						i += j + 1
+						continue
+					}
+				}
+			} else if i+6 <= len(s) {
+				v, err := strconv.ParseInt(s[i+2:i+6], 16, 32)
+				if err == nil {
+					if v > 255 {
+						return "", false
+					}
+					b = append(b, byte(v))
+					i += 6
+					continue
+				}
+			}
+		}
+		if s[i] == '\\' && i+1 < len(s) && s[i+1] == 'x' && i+4 <= len(s) {
+			v, err := strconv.ParseInt(s[i+2:i+4], 16, 32)
+			if err == nil {
+				b = append(b, byte(v))
+				i += 4
+				continue
+			}
+		}
+		b = append(b, s[i])
+		i++
+	}
+	return string(b), true
+}
+
+func sexpInt(s *sexp) (int64, bool) {
+	if !s.isL {
+		v, err := strconv.ParseInt(s.atom, 10, 64)
+		return v, err == nil
+	}
+	if len(s.list) == 2 && s.list[0].atom == "-" {
+		v, ok := sexpInt(s.list[1])
+		return -v, ok
+	}
+	return 0, false
+}
+
+// ---------------------------------------------------------------------------
+// model exploration by pinned get-value rounds
+// ---------------------------------------------------------------------------
+
+type modelSession struct {
+	base    string   // script body (declarations + assertions incl. negated goal)
+	pins    []string // (assert (= term value)) accumulated
+	solver  []string // solvers allowed to produce models
+	outDir  string
+	name    string
+	seed    int
+	rounds  int
+	timeout int
+	values  map[string]*sexp
+	failed  string
+	// candidate: some round was answered "unknown" with values (not a verified model)
+	candidate bool
+}
+
+func (m *modelSession) getValues(terms []string) bool {
+	var need []string
+	for _, t := range terms {
+		if _, ok := m.values[t]; !ok {
+			need = append(need, t)
+		}
+	}
+	if len(need) == 0 {
+		return true
+	}
+	m.rounds++
+	body := m.base + strings.Join(m.pins, "\n") + "\n"
+	tail := "(check-sat)\n(get-value (" + strings.Join(need, " ") + "))\n"
+	type ans struct {
+		name string
+		out  string
+	}
+	ctx, cancel := context.WithCancel(context.Background())
+	defer cancel()
+	ch := make(chan ans, len(solvers))
+	n := 0
+	for _, s := range solvers {
+		if !contains(m.solver, s.name) {
+			continue
+		}
+		n++
+		go func(s solverSpec) {
+			file := filepath.Join(m.outDir, sanitizeFile(fmt.Sprintf("%s.model%d.%s", m.name, m.rounds, s.name))+".smt2")
+			os.WriteFile(file, []byte(s.pre(m.seed)+body+tail), 0o644)
+			cctx, ccancel := context.WithTimeout(ctx, time.Duration(m.timeout+2)*time.Second)
+			defer ccancel()
+			cmd := exec.CommandContext(cctx, s.bin, append(s.args(m.timeout, m.seed), file)...)
+			var out bytes.Buffer
+			cmd.Stdout = &out
+			cmd.Stderr = &out
+			cmd.Run()
+			ch <- ans{s.name, strings.TrimSpace(out.String())}
+		}(s)
+	}
+	for i := 0; i < n; i++ {
+		a := <-ch
+		o := a.out
+		// "unknown" answers that still come with values are candidate models (cvc5 with quantifiers):
+		// acceptable here because the real code, not the solver, confirms a replay.
+		if !strings.HasPrefix(o, "sat") && !(strings.HasPrefix(o, "unknown") && strings.Contains(o, "((")) {
+			m.failed += a.name + ": " + trunc(o, 120) + "; "
+			continue
+		}
+		if strings.HasPrefix(o, "unknown") {
+			m.candidate = true
+		}
+		ss := parseSexps(strings.TrimPrefix(strings.TrimPrefix(o, "sat"), "unknown"))
+		if len(ss) == 0 || !ss[0].isL {
+			m.failed += a.name + ": cannot parse get-value output; "
+			continue
+		}
+		got := 0
+		for i, pair := range ss[0].list {
+			if pair.isL && len(pair.list) == 2 && i < len(need) {
+				m.values[need[i]] = pair.list[1]
+				m.pins = append(m.pins, fmt.Sprintf("(assert (= %s %s))", need[i], pair.list[1].String()))
+				got++
+			}
+		}
+		if got == len(need) {
+			// stay with this solver so that later rounds extend the same kind of model
+			m.solver = []string{a.name}
+			cancel()
+			return true
+		}
+	}
+	return false
+}
+
+// ---------------------------------------------------------------------------
+// Go value construction from the model
+// ---------------------------------------------------------------------------
+
+type goBuilder struct {
+	m       *modelSession
+	e       *Exec
+	st      *State
+	stmts   []string
+	imports map[string]string // path -> alias
+	objs    map[string]string // "type#id" -> variable name
+	nvar    int
+	pkg     *types.Package
+	err     string
+	maxLen  int
+	bound   int
+	strs    []string
+}
+
+func (g *goBuilder) qual(p *types.Package) string {
+	if p == g.pkg {
+		return ""
+	}
+	if a, ok := g.imports[p.Path()]; ok {
+		return a
+	}
+	a := fmt.Sprintf("rp%d", len(g.imports))
+	g.imports[p.Path()] = a
+	return a
+}
+
+func (g *goBuilder) typeStr(t types.Type) string { return types.TypeString(t, g.qual) }
+
+func (g *goBuilder) fail(f string, a ...interface{}) string {
+	if g.err == "" {
+		g.err = fmt.Sprintf(f, a...)
+	}
+	return "nil"
+}
+
+func (g *goBuilder) newVar() string {
+	g.nvar++
+	return fmt.Sprintf("v%d", g.nvar)
+}
+
+func exportedOrLocal(obj types.Object, pkg *types.Package) bool {
+	return obj.Exported() || obj.Pkg() == pkg
+}
+
+// witness expressions for opaque interface / handle types.
+func (g *goBuilder) witness(t types.Type) (string, bool) {
+	switch types.TypeString(t, nil) {
+	case "github.com/tetratelabs/telemetry.Logger":
+		a := g.qualPath("github.com/tetratelabs/telemetry")
+		return a + ".NoopLogger()", true
+	case "context.Context":
+		a := g.qualPath("context")
+		return a + ".Background()", true
+	}
+	return "", false
+}
+
+func (g *goBuilder) qualPath(path string) string {
+	if a, ok := g.imports[path]; ok {
+		return a
+	}
+	a := fmt.Sprintf("rp%d", len(g.imports))
+	g.imports[path] = a
+	return a
+}
+
+// build returns a Go expression for the value of SMT term `term` of Go type t.
+func (g *goBuilder) build(term string, t types.Type) string {
+	if g.err != "" {
+		return "nil"
+	}
+	if w, ok := g.witness(t); ok {
+		return w
+	}
+	if _, have := g.m.values[term]; !have {
+		// ground size restrictions of the bounded instance, on exactly the terms that are explored
+		switch t.Underlying().(type) {
+		case *types.Slice:
+			g.m.pins = append(g.m.pins, fmt.Sprintf("(assert (<= (sl-len %s) %d))", term, g.bound))
+		case *types.Basic:
+			if tyOfGo(t).K == KString {
+				g.m.pins = append(g.m.pins, fmt.Sprintf("(assert (<= (str.len %s) 8))", term), fmt.Sprintf("(assert (str.in_re %s (re.* (re.range \"\\u{20}\" \"\\u{7e}\"))))", term))
+			}
+		}
+	}
+	if !g.m.getValues([]string{term}) {
+		return g.fail("no value for %s: %s", term, g.m.failed)
+	}
+	val := g.m.values[term]
+	if isTimeType(t) {
+		return g.fail("time.Time input not supported in replay")
+	}
+	switch u := t.Underlying().(type) {
+	case *types.Basic:
+		switch {
+		case u.Info()&types.IsBoolean != 0:
+			return g.conv(t, val.atom)
+		case u.Info()&types.IsString != 0:
+			s, ok := smtStringValue(val.atom)
+			if !ok {
+				return g.fail("string value not representable: %s", val.atom)
+			}
+			g.strs = append(g.strs, s)
+			return g.conv(t, strconv.Quote(s))
+		case u.Info()&types.IsInteger != 0:
+			v, ok := sexpInt(val)
+			if !ok {
+				return g.fail("bad int %s", val)
+			}
+			return g.conv(t, strconv.FormatInt(v, 10))
+		}
+		return g.fail("unsupported basic type %s", t)
+	case *types.Pointer:
+		id, ok := sexpInt(val)
+		if !ok {
+			return g.fail("bad ref %s", val)
+		}
+		if id == 0 {
+			return "nil"
+		}
+		st, isStruct := u.Elem().Underlying().(*types.Struct)
+		if !isStruct || isTimeType(u.Elem()) {
+			return g.fail("pointer to non-struct %s in replay", t)
+		}
+		key := fmt.Sprintf("%s#%d", types.TypeString(u.Elem(), nil), id)
+		if v, ok := g.objs[key]; ok {
+			return v
+		}
+		v := g.newVar()
+		g.objs[key] = v
+		g.stmts = append(g.stmts, fmt.Sprintf("%s := &%s{}", v, g.typeStr(u.Elem())))
+		ref := smtInt(id)
+		for i := 0; i < st.NumFields(); i++ {
+			f := st.Field(i)
+			if !exportedOrLocal(f, g.pkg) {
+				continue
+			}
+			a := g.e.fieldAddr(ref, u.Elem(), i)
+			if a.Sub != "" {
+				continue // embedded struct values: left zero
+			}
+			if !g.e.S.declared[a.Heap] {
+				continue // the function never looks at this field: left zero
+			}
+			ft := g.e.load(g.st, a)
+			fe := g.build(ft.T, f.Type())
+			if g.err != "" {
+				return "nil"
+			}
+			if fe != zeroGo(f.Type()) {
+				g.stmts = append(g.stmts, fmt.Sprintf("%s.%s = %s", v, f.Name(), fe))
+			}
+		}
+		return v
+	case *types.Slice:
+		if !val.isL || len(val.list) != 4 {
+			return g.fail("bad slice value %s", val)
+		}
+		base, _ := sexpInt(val.list[1])
+		n, _ := sexpInt(val.list[3])
+		if base == 0 {
+			return "nil"
+		}
+		if n > int64(g.maxLen) {
+			return g.fail("slice of length %d in model (limit %d)", n, g.maxLen)
+		}
+		var elems []string
+		sv := Val{T: term, Ty: tyOfGo(t)}
+		for i := int64(0); i < n; i++ {
+			a := g.e.elemAddr(sv, strconv.FormatInt(i, 10), u.Elem())
+			if a.Sub != "" {
+				return g.fail("slice of struct values in replay")
+			}
+			ev := g.e.load(g.st, a)
+			elems = append(elems, g.build(ev.T, u.Elem()))
+		}
+		return fmt.Sprintf("%s{%s}", g.typeStr(t), strings.Join(elems, ", "))
+	case *types.Interface:
+		if !val.isL || len(val.list) != 3 {
+			return g.fail("bad interface value %s", val)
+		}
+		tag, _ := sexpInt(val.list[1])
+		if tag == 0 {
+			return "nil"
+		}
+		if int(tag) > len(g.e.S.tagNames) {
+			return g.fail("interface value with unknown dynamic type tag %d", tag)
+		}
+		var dyn types.Type
+		dyn = g.e.S.tagTypes[tag-1]
+		if dyn == nil {
+			return g.fail("no type for tag %d", tag)
+		}
+		if _, isPtr := dyn.Underlying().(*types.Pointer); isPtr {
+			return g.build(app("if-pay", term), dyn)
+		}
+		uv := g.e.unboxIface(Val{T: term, Ty: tyIface}, tyOfGo(dyn))
+		return g.build(uv.T, dyn)
+	case *types.Map:
+		id, _ := sexpInt(val)
+		if id == 0 {
+			return "nil"
+		}
+		// only the keys the model search was restricted to (see mapKeyCandidates)
+		keys := g.e.mapKeyCands[term]
+		v := g.newVar()
+		g.stmts = append(g.stmts, fmt.Sprintf("%s := %s{}", v, g.typeStr(t)))
+		for _, k := range keys {
+			mv, pres := g.e.mapLookup(g.st, term, k, u)
+			if !g.m.getValues([]string{pres}) {
+				return g.fail("no value for map presence")
+			}
+			if g.m.values[pres].atom != "true" {
+				continue
+			}
+			ke := g.build(k, u.Key())
+			ve := g.build(mv.T, u.Elem())
+			g.stmts = append(g.stmts, fmt.Sprintf("%s[%s] = %s", v, ke, ve))
+		}
+		return v
+	case *types.Struct:
+		return g.fail("struct value input %s not supported in replay", t)
+	}
+	return g.fail("unsupported type %s in replay", t)
+}
+
+func (g *goBuilder) conv(t types.Type, lit string) string {
+	if _, named := t.(*types.Named); named {
+		return fmt.Sprintf("%s(%s)", g.typeStr(t), lit)
+	}
+	return lit
+}
+
+func zeroGo(t types.Type) string {
+	switch u := t.Underlying().(type) {
+	case *types.Basic:
+		switch {
+		case u.Info()&types.IsBoolean != 0:
+			if _, named := t.(*types.Named); named {
+				return ""
+			}
+			return "false"
+		case u.Info()&types.IsString != 0:
+			if _, named := t.(*types.Named); named {
+				return ""
+			}
+			return `""`
+		case u.Info()&types.IsInteger != 0:
+			if _, named := t.(*types.Named); named {
+				return ""
+			}
+			return "0"
+		}
+	case *types.Pointer, *types.Slice, *types.Map, *types.Interface:
+		return "nil"
+	}
+	return ""
+}
+
+// ---------------------------------------------------------------------------
+// replay of one failed obligation
+// ---------------------------------------------------------------------------
+
 // replayObligation tries to turn a failed obligation into a concrete failing input on the real
 // code. Returns "confirmed", "not-reproduced" or "no-model". Always writes the replay file.
 func replayObligation(p *Program, w *World, o *Obligation, replayPath, outDir string, seed int) string {
@@ -14,6 +552,384 @@ func replayObligation(p *Program, w *World, o *Obligation, replayPath, outDir st
 		"smt_script":      outDir + "/" + sanitizeFile(o.Name) + ".<solver>.smt2",
 		"outcome":         "no-model",
 	}
-	writeJSON(replayPath, rec)
-	return "no-model"
+	outcome := "no-model"
+	defer func() {
+		rec["outcome"] = outcome
+		writeJSON(replayPath, rec)
+	}()
+	e := o.Exec
+	if e == nil || e.curTop == nil || o.Kind == "lemma" || o.Kind == "cover" || o.Kind == "frame" {
+		rec["note"] = "no replay driver for this obligation kind"
+		return outcome
+	}
+	fn := e.curTop
+	func() {
+		defer func() {
+			if r := recover(); r != nil {
+				rec["note"] = fmt.Sprintf("replay construction failed: %v", r)
+			}
+		}()
+		// bounded instances (DESIGN 4.4): the search for a replayable input restricts slices to
+		// length <= k and strings to length <= 8 of printable ASCII. This is only a search for an
+		// input to replay; its failure never turns a failed obligation into a pass.
+		var m *modelSession
+		var g *goBuilder
+		var argExprs []string
+		for _, k := range []int{2, 3} {
+			// regenerate the function's VCs as a bounded instance and take the same obligation
+			br := genFuncK(p, w, fn, w.contractFor(fn), nil, k)
+			var bo *Obligation
+			for _, cand := range br.Obls {
+				if cand.Name == o.Name {
+					bo = cand
+				}
+			}
+			if bo == nil {
+				rec["note"] = "bounded instance does not contain the obligation"
+				return
+			}
+			e = bo.Exec
+			o2 := *bo
+			o2.Extra = append(append([]string{}, lateDecls(bo)...), bo.Extra...)
+			m = &modelSession{base: scriptFor(&o2), solver: []string{"z3-new", "z3", "cvc5"}, outDir: outDir, name: fmt.Sprintf("%s.k%d", o.Name, k), seed: seed, timeout: 20, values: map[string]*sexp{}}
+			g = &goBuilder{m: m, e: e, st: e.entry, imports: map[string]string{}, objs: map[string]string{}, pkg: fn.Pkg.Pkg, maxLen: 6, bound: k}
+			argExprs = nil
+			for i, prm := range fn.Params {
+				argExprs = append(argExprs, g.build(e.topArgs[i].T, prm.Type()))
+			}
+			if g.err == "" {
+				rec["bounded_instance"] = fmt.Sprintf("slices <= %d, strings <= 8 printable", k)
+				break
+			}
+		}
+		if g.err != "" {
+			rec["note"] = "model could not be turned into Go values: " + g.err
+			if m.failed != "" {
+				rec["model_search"] = m.failed
+			}
+			return
+		}
+		inputPins := append([]string{}, m.pins...)
+		pins := map[string]string{}
+		for k, v := range m.values {
+			pins[k] = v.String()
+		}
+		rec["model"] = pins
+		rec["model_rounds"] = m.rounds
+		rec["model_is_candidate_only"] = m.candidate
+		test, runPat := genReplayTest(fn, g, argExprs, e.usesAbstract())
+		rec["go_test"] = test
+		out, err := runOverlayTest(p, fn, test, runPat)
+		rec["go_test_output"] = trunc(out, 6000)
+		if err != nil {
+			rec["go_test_error"] = err.Error()
+		}
+		panicked := strings.Contains(out, "GOVC-REPLAY panic=true")
+		switch o.Kind {
+		case "panic":
+			if panicked {
+				outcome = "confirmed"
+				rec["confirmed_by"] = "the real function panics on the model's input"
+			} else {
+				outcome = "not-reproduced"
+			}
+		case "post":
+			if panicked {
+				outcome = "not-reproduced"
+				rec["note"] = "real function panicked"
+				return
+			}
+			observed := parseObserved(out)
+			rec["observed_results"] = observed
+			// concrete evaluation of the clause by the solver: inputs pinned to the replayed values,
+			// results pinned to what the real code returned, abstract predicates pinned to what the
+			// real library answered. A genuine "sat" means the real behaviour violates the clause.
+			var final []string
+			final = append(final, inputPins...)
+			okPins := true
+			for i, rv := range o.RetVals {
+				if i >= len(observed) {
+					okPins = false
+					break
+				}
+				switch {
+				case rv.T == "":
+					continue
+				case rv.Ty.K == KBool:
+					final = append(final, fmt.Sprintf("(assert (= %s %s))", rv.T, observed[i]))
+				case rv.Ty.K == KInt && rv.Ty.Go != nil:
+					n, perr := strconv.ParseInt(observed[i], 10, 64)
+					if perr != nil {
+						okPins = false
+					}
+					final = append(final, fmt.Sprintf("(assert (= %s %s))", rv.T, smtInt(n)))
+				case rv.Ty.K == KString:
+					sv, perr := strconv.Unquote(observed[i])
+					if perr != nil {
+						okPins = false
+					}
+					final = append(final, fmt.Sprintf("(assert (= %s %s))", rv.T, smtStr(sv)))
+				default:
+					rec["note"] = "result of a type whose observed value cannot be pinned; clause evaluated with the result left free"
+				}
+			}
+			final = append(final, parseAbstractPins(out)...)
+			if !okPins {
+				outcome = "not-reproduced"
+				rec["note"] = "observed results could not be parsed"
+				return
+			}
+			o3 := *o
+			o3.Extra = append(append(append([]string{}, lateDecls(o)...), o.Extra...), final...)
+			r := solve(outDir, o.Name+".replay-eval", scriptFor(&o3), 30, seed, false, false, nil)
+			rec["clause_evaluation"] = map[string]interface{}{"query": "inputs, observed results and observed library answers pinned; is the negated clause satisfiable?", "result": r.Result, "solver": r.Solver}
+			if r.Result == "sat" {
+				outcome = "confirmed"
+				rec["confirmed_by"] = "for these concrete inputs the real function returned the observed values, and the clause evaluates to false on them"
+			} else {
+				outcome = "not-reproduced"
+			}
+		default:
+			outcome = "not-reproduced"
+			rec["note"] = "no oracle for obligation kind " + o.Kind + "; the input was run on the real code (see output)"
+		}
+	}()
+	return outcome
+}
+
+// boundExtras: size restrictions for the counter-model search.
+func boundExtras(e *Exec, fn *ssa.Function, k, strLen int) []string {
+	var out []string
+	printable := fmt.Sprintf("(re.* (re.range \"\\u{20}\" \"\\u{7e}\"))")
+	for i, prm := range fn.Params {
+		v := e.topArgs[i]
+		switch v.Ty.K {
+		case KSlice:
+			out = append(out, fmt.Sprintf("(assert (<= (sl-len %s) %d))", v.T, k))
+		case KString:
+			out = append(out, fmt.Sprintf("(assert (<= (str.len %s) %d))", v.T, strLen), fmt.Sprintf("(assert (str.in_re %s %s))", v.T, printable))
+		}
+		_ = prm
+	}
+	for _, name := range sortedKeys(e.heapSort) {
+		if !e.S.declared[name] {
+			continue
+		}
+		switch e.heapSort[name] {
+		case "(Array Int Slice)":
+			out = append(out, fmt.Sprintf("(assert (forall ((o Int)) (<= (sl-len (select %s o)) %d)))", sym(name), k))
+		case "(Array Int String)":
+			out = append(out, fmt.Sprintf("(assert (forall ((o Int)) (and (<= (str.len (select %s o)) %d) (str.in_re (select %s o) %s))))", sym(name), strLen, sym(name), printable))
+		}
+	}
+	return out
+}
+
+// lateDecls: declarations that were added to the function's script after this obligation was
+// recorded (harmless to include; needed when the model walk mentions entry-state symbols that
+// the obligation's prefix did not declare).
+func lateDecls(o *Obligation) []string {
+	var out []string
+	for _, l := range o.Script.lines[o.Prefix:] {
+		if strings.HasPrefix(l, "(declare-") {
+			out = append(out, l)
+		}
+	}
+	return out
+}
+
+func (e *Exec) usesAbstract() []string {
+	var out []string
+	for a := range e.Assumptions {
+		if strings.HasPrefix(a, "abstract:") {
+			out = append(out, strings.TrimPrefix(a, "abstract:"))
+		}
+	}
+	sort.Strings(out)
+	return out
+}
+
+// parseAbstractPins: "GOVC-ABSTRACT F "a" "b" true" lines -> (assert (= (F "a" "b") true))
+func parseAbstractPins(out string) []string {
+	var pins []string
+	for _, l := range strings.Split(out, "\n") {
+		i := strings.Index(l, "GOVC-ABSTRACT ")
+		if i < 0 {
+			continue
+		}
+		rest := l[i+len("GOVC-ABSTRACT "):]
+		sp := strings.IndexByte(rest, ' ')
+		if sp < 0 {
+			continue
+		}
+		fname := rest[:sp]
+		rest = strings.TrimSpace(rest[sp+1:])
+		var args []string
+		for strings.HasPrefix(rest, "\"") {
+			q, err := strconv.QuotedPrefix(rest)
+			if err != nil {
+				break
+			}
+			u, _ := strconv.Unquote(q)
+			args = append(args, smtStr(u))
+			rest = strings.TrimSpace(rest[len(q):])
+		}
+		if rest == "true" || rest == "false" {
+			pins = append(pins, fmt.Sprintf("(assert (= (%s %s) %s))", sym(fname), strings.Join(args, " "), rest))
+		}
+	}
+	return pins
+}
+
+func parseObserved(out string) []string {
+	var res []string
+	for _, l := range strings.Split(out, "\n") {
+		if i := strings.Index(l, "GOVC-REPLAY result"); i >= 0 {
+			rest := l[i+len("GOVC-REPLAY result"):]
+			if eq := strings.Index(rest, "="); eq >= 0 {
+				res = append(res, strings.TrimSpace(rest[eq+1:]))
+			}
+		}
+	}
+	return res
+}
+
+func genReplayTest(fn *ssa.Function, g *goBuilder, args []string, abstract []string) (string, string) {
+	var b strings.Builder
+	name := "TestGovcReplay"
+	// concretisers of abstract spec predicates: what the real library answers on the model's strings
+	conc := ""
+	for _, a := range abstract {
+		if a == "RegexMatch" {
+			al := g.qualPath("regexp")
+			seen := map[string]bool{}
+			var strs []string
+			for _, s := range g.strs {
+				if !seen[s] {
+					seen[s] = true
+					strs = append(strs, s)
+				}
+			}
+			if len(strs) > 8 {
+				strs = strs[:8]
+			}
+			var lits []string
+			for _, s := range strs {
+				lits = append(lits, strconv.Quote(s))
+			}
+			conc += fmt.Sprintf("\tfor _, re := range []string{%s} {\n\t\tfor _, s := range []string{%s} {\n\t\t\tm, _ := %s.MatchString(re, s)\n\t\t\tfmt.Printf(\"GOVC-ABSTRACT RegexMatch %%q %%q %%v\\n\", re, s, m)\n\t\t}\n\t}\n", strings.Join(lits, ", "), strings.Join(lits, ", "), al)
+		}
+	}
+	fmt.Fprintf(&b, "package %s\n\nimport (\n\t\"fmt\"\n\t\"testing\"\n", fn.Pkg.Pkg.Name())
+	var paths []string
+	for p := range g.imports {
+		paths = append(paths, p)
+	}
+	sort.Strings(paths)
+	for _, p := range paths {
+		fmt.Fprintf(&b, "\t%s %q\n", g.imports[p], p)
+	}
+	b.WriteString(")\n\n")
+	fmt.Fprintf(&b, "func %s(t *testing.T) {\n", name)
+	for _, s := range g.stmts {
+		b.WriteString("\t" + s + "\n")
+	}
+	b.WriteString(conc)
+	b.WriteString("\tdefer func() {\n\t\tif r := recover(); r != nil {\n\t\t\tfmt.Printf(\"GOVC-REPLAY panic=true %v\\n\", r)\n\t\t} else {\n\t\t\tfmt.Println(\"GOVC-REPLAY panic=false\")\n\t\t}\n\t}()\n")
+	call := ""
+	nres := fn.Signature.Results().Len()
+	var lhs []string
+	for i := 0; i < nres; i++ {
+		lhs = append(lhs, fmt.Sprintf("r%d", i))
+	}
+	if fn.Signature.Recv() != nil {
+		call = fmt.Sprintf("%s.%s(%s)", args[0], fn.Name(), strings.Join(args[1:], ", "))
+	} else {
+		call = fmt.Sprintf("%s(%s)", fn.Name(), strings.Join(args, ", "))
+	}
+	if nres > 0 {
+		fmt.Fprintf(&b, "\t%s := %s\n", strings.Join(lhs, ", "), call)
+		for i := 0; i < nres; i++ {
+			rt := fn.Signature.Results().At(i).Type()
+			if bt, ok := rt.Underlying().(*types.Basic); ok && bt.Info()&types.IsString != 0 {
+				fmt.Fprintf(&b, "\tfmt.Printf(\"GOVC-REPLAY result%d=%%q\\n\", r%d)\n", i, i)
+			} else {
+				fmt.Fprintf(&b, "\tfmt.Printf(\"GOVC-REPLAY result%d=%%v\\n\", r%d)\n", i, i)
+			}
+		}
+	} else {
+		fmt.Fprintf(&b, "\t%s\n", call)
+	}
+	b.WriteString("}\n")
+	return b.String(), "^" + name + "$"
+}
+
+// runOverlayTest injects the test into fn's package with go test -overlay (nothing is written to the repo).
+func runOverlayTest(p *Program, fn *ssa.Function, test, runPat string) (string, error) {
+	dir, err := os.MkdirTemp("", "govc-replay-")
+	if err != nil {
+		return "", err
+	}
+	defer os.RemoveAll(dir)
+	pkgPath := fn.Pkg.Pkg.Path()
+	rel := strings.TrimPrefix(pkgPath, p.ModPath+"/")
+	testFile := filepath.Join(dir, "zz_govc_replay_test.go")
+	os.WriteFile(testFile, []byte(test), 0o644)
+	ov := map[string]map[string]string{"Replace": {filepath.Join(p.RepoDir, rel, "zz_govc_replay_test.go"): testFile}}
+	ob, _ := json.Marshal(ov)
+	ovFile := filepath.Join(dir, "overlay.json")
+	os.WriteFile(ovFile, ob, 0o644)
+	ctx, cancel := context.WithTimeout(context.Background(), 180*time.Second)
+	defer cancel()
+	cmd := exec.CommandContext(ctx, "go", "test", "-overlay", ovFile, "-vet=off", "-count=1", "-timeout", "60s", "-run", runPat, "-v", "./"+rel)
+	cmd.Dir = p.RepoDir
+	cmd.Env = append(os.Environ(), "GOFLAGS=-mod=mod", "GOPROXY=off")
+	var out bytes.Buffer
+	cmd.Stdout = &out
+	cmd.Stderr = &out
+	err = cmd.Run()
+	return out.String(), err
+}
+
+func cmdReplay(args []string) int {
+	if len(args) < 1 {
+		fmt.Println("usage: govc replay <replay.json>")
+		return 2
+	}
+	b, err := os.ReadFile(args[0])
+	if err != nil {
+		fmt.Println(err)
+		return 2
+	}
+	var rec map[string]interface{}
+	if err := json.Unmarshal(b, &rec); err != nil {
+		fmt.Println(err)
+		return 2
+	}
+	fmt.Printf("obligation: %v\nclause: %v\noutcome recorded: %v\n", rec["obligation"], rec["clause"], rec["outcome"])
+	test, _ := rec["go_test"].(string)
+	if test == "" {
+		fmt.Println("no replayable Go test recorded (", rec["note"], ")")
+		fmt.Println(rec["verifier_output"])
+		return 1
+	}
+	// re-run the recorded test against the current tree
+	p, err := loadProgram("/repo")
+	if err != nil {
+		fmt.Println(err)
+		return 2
+	}
+	pkgName := strings.TrimSpace(strings.TrimPrefix(strings.SplitN(test, "\n", 2)[0], "package "))
+	for _, fn := range p.allRepoFuncs() {
+		if fn.Pkg != nil && fn.Pkg.Pkg.Name() == pkgName && strings.HasPrefix(fmt.Sprint(rec["obligation"]), displayName(fn)+":") {
+			out, _ := runOverlayTest(p, fn, test, "^TestGovcReplay$")
+			fmt.Println(out)
+			if strings.Contains(out, "GOVC-REPLAY") {
+				return 1
+			}
+			return 2
+		}
+	}
+	fmt.Println("function of the obligation not found")
+	return 2
 }
